@@ -30,11 +30,12 @@ type Step struct {
 // Case is a generated stream program.
 type Case struct {
 	Property    string `json:"property,omitempty"`
-	Create      []int  `json:"create"`          // outcome of the i-th stream creation: 0 ok, 1 error, 2 blocks until the context ends
-	SendErr     int    `json:"sendErr"`         // the fake's n-th SendMsg fails (0 = never)
-	RecvMode    int    `json:"recvMode"`        // fake RecvMsg: 0 returns nil at once, 1 blocks until a message is delivered or ctx ends, 2 returns io.EOF
-	Deadline    int    `json:"deadlineMs"`      // >0: the call's context has a deadline instead of being cancelled explicitly
-	CancelAtErr int    `json:"cancelAtErrCall"` // >0: the context is cancelled right after the library's k-th ctx.Err() call (owns the check-then-wait window)
+	Create      []int  `json:"create"`              // outcome of the i-th stream creation: 0 ok, 1 error, 2 blocks until the context ends
+	SendErr     int    `json:"sendErr"`             // the fake's n-th SendMsg fails (0 = never)
+	SendBlock   int    `json:"sendBlock,omitempty"` // the fake's n-th SendMsg blocks until the underlying RecvMsg is called (flow control) or ctx ends
+	RecvMode    int    `json:"recvMode"`            // fake RecvMsg: 0 returns nil at once, 1 blocks until a message is delivered or ctx ends, 2 returns io.EOF
+	Deadline    int    `json:"deadlineMs"`          // >0: the call's context has a deadline instead of being cancelled explicitly
+	CancelAtErr int    `json:"cancelAtErrCall"`     // >0: the context is cancelled right after the library's k-th ctx.Err() call (owns the check-then-wait window)
 	Steps       []Step `json:"steps"`
 	Failure     string `json:"failure,omitempty"`
 }
@@ -42,17 +43,20 @@ type Case struct {
 type userKey struct{}
 
 type fakeStream struct {
-	ctx      context.Context
-	c        *Case
-	sends    []interface{}
-	recvs    []interface{}
-	closes   int
-	headers  int
-	trailers int
-	contexts int
-	deliver  chan struct{}
-	hdr, trl metadata.MD
-	sendErr  error
+	ctx         context.Context
+	c           *Case
+	sends       []interface{}
+	recvs       []interface{}
+	closes      int
+	headers     int
+	trailers    int
+	contexts    int
+	deliver     chan struct{}
+	hdr, trl    metadata.MD
+	sendErr     error
+	sendRets    map[interface{}]error // what the underlying SendMsg returned for each message
+	sendBlocked bool
+	recvSeen    chan struct{}
 }
 
 func (f *fakeStream) Header() (metadata.MD, error) { f.headers++; return f.hdr, nil }
@@ -61,13 +65,33 @@ func (f *fakeStream) CloseSend() error             { f.closes++; return nil }
 func (f *fakeStream) Context() context.Context     { f.contexts++; return f.ctx }
 func (f *fakeStream) SendMsg(m interface{}) error {
 	f.sends = append(f.sends, m)
+	if f.sendRets == nil {
+		f.sendRets = map[interface{}]error{}
+	}
 	if f.c.SendErr > 0 && len(f.sends) == f.c.SendErr {
+		f.sendRets[m] = f.sendErr
 		return f.sendErr
 	}
+	if f.c.SendBlock > 0 && len(f.sends) == f.c.SendBlock {
+		// like a transport without send quota: only the peer's progress (here: the client reading) lets it go on
+		f.sendBlocked = true
+		defer func() { f.sendBlocked = false }()
+		select {
+		case <-f.recvSeen:
+		case <-f.ctx.Done():
+			f.sendRets[m] = f.ctx.Err()
+			return f.ctx.Err()
+		}
+	}
+	f.sendRets[m] = nil
 	return nil
 }
 func (f *fakeStream) RecvMsg(m interface{}) error {
 	f.recvs = append(f.recvs, m)
+	select {
+	case f.recvSeen <- struct{}{}:
+	default:
+	}
 	switch f.c.RecvMode {
 	case 1:
 		select {
@@ -170,7 +194,8 @@ func Run(c *Case) (failure string, labels map[string]int, nontrivial bool) {
 			createErrs = append(createErrs, e)
 			return nil, e
 		}
-		fake = &fakeStream{ctx: sctx, c: c, deliver: make(chan struct{}, 64), hdr: metadata.Pairs("h", "1"), trl: metadata.Pairs("t", "2"), sendErr: errors.New("fake send error")}
+		fake = &fakeStream{ctx: sctx, c: c, deliver: make(chan struct{}, 64), hdr: metadata.Pairs("h", "1"), trl: metadata.Pairs("t", "2"), sendErr: errors.New("fake send error"),
+			sendRets: map[interface{}]error{}, recvSeen: make(chan struct{})}
 		return fake, nil
 	}
 	hx.CallDesc.Store("GCPStreamClientInterceptor")
@@ -246,9 +271,9 @@ func Run(c *Case) (failure string, labels map[string]int, nontrivial bool) {
 				if len(fake.sends) == 0 || fake.sends[len(fake.sends)-1] != r.arg {
 					fail("SendMsg(%p) returned but the underlying stream did not receive that message last (got %v)", r.arg, fake.sends)
 				}
-				wantErr := error(nil)
-				if c.SendErr > 0 && len(fake.sends) == c.SendErr {
-					wantErr = fake.sendErr
+				wantErr, returned := fake.sendRets[r.arg]
+				if !returned {
+					fail("SendMsg(%p) returned %v while the underlying SendMsg has not returned", r.arg, r.err)
 				}
 				if r.err != wantErr {
 					fail("SendMsg returned %v, the underlying stream returned %v", r.err, wantErr)
@@ -416,8 +441,11 @@ func Run(c *Case) (failure string, labels map[string]int, nontrivial bool) {
 					labels["stream-created"]++
 				}
 			}
-			if fake != nil && !w.busy {
+			if fake != nil && (!w.busy || contains(fake.sends, w.arg)) {
 				wantSends = append(wantSends, w.arg)
+			}
+			if fake != nil && w.busy && fake.sendBlocked {
+				labels["underlying-send-blocked-until-receive"]++
 			}
 		} else if creations != before {
 			fail("%s created a stream", call)
@@ -436,7 +464,7 @@ func Run(c *Case) (failure string, labels map[string]int, nontrivial bool) {
 			if call == "recv" && created && c.RecvMode != 1 {
 				fail("RecvMsg is blocked although the underlying stream exists and answers at once")
 			}
-			if call == "send" && !creating {
+			if call == "send" && !creating && !(fake != nil && fake.sendBlocked) {
 				fail("%s: SendMsg is blocked although stream creation does not block (creations=%d, ctx=%v)", what, creations, ctx.Err())
 			}
 		} else if call == "recv" && !created && ctx.Err() == nil && len(createErrs) == 0 {
